@@ -91,6 +91,35 @@ var propDrivers = map[string]*propDriver{
 		"C06 claims: absence of run-time panics (index, slice bounds, nil dereference, failed type assertion, division, make with negative length) for every repository function under its contract, callee preconditions at every call site, and value-xor-error for every constructor",
 		"termination is proved only implicitly for unit-stride loops (the auto-summary bounds the iteration count by the loop guard); while-style loops and the time bound (at most quadratic) are not decided by this technique",
 	}},
+	"C08": {extra: func(w *World, tier string) []VC {
+		var vcs []VC
+		for _, eco := range []string{"semver", "npm", "cargo", "hex", "golang", "nuget"} {
+			fn := w.funcs[eco+".(*Version).Compare"]
+			if fn == nil {
+				continue
+			}
+			vcs = append(vcs, VC{Name: eco + ".(*Version).Compare.semver-precedence.bounded", Prop: "C08", Kind: "bounded.api", Fn: w.fnKey(fn),
+				Clause: "Compare(NewVersion(x), NewVersion(y)) has the sign of SemVer 2.0.0 section 11 precedence on the texts",
+				Bounded: "versions 1.0.0[-id[.id]][+build] with identifiers from a fixed pool of 17 (plus the pseudo-version spellings for golang) and 10 plain triples",
+				Pos:     w.pos(fn.Pos()), Run: func() SolveResult {
+					start := time.Now()
+					cx := semverFalsifier(w, fn, vcResult{})
+					res := SolveResult{Solver: "enumeration(go test -overlay)", Seconds: time.Since(start).Seconds(), cx: cx}
+					switch {
+					case cx == nil:
+						res.Status = "error"
+					case cx.Confirmed:
+						res.Status, res.Output = "sat", cx.Observed
+					case strings.Contains(cx.Output, "VERIF-OK"):
+						res.Status, res.Output = "unsat", lastLines(cx.Output, 1)
+					default:
+						res.Status, res.Output = "error", cx.Output
+					}
+					return res
+				}})
+		}
+		return vcs
+	}, notes: []string{"parse-level agreement (text to fields) is covered by the bounded API obligations <eco>.(*Version).Compare.semver-precedence.bounded; the struct-level clauses are proved for all field values"}},
 	"C18": {extra: func(w *World, tier string) []VC { return w.textFlowVCs() },
 		notes: []string{
 			"C18 = proved postconditions (String() returns the stored text; the stored text is the input or its TrimSpace) + read-frame obligations decided by dataflow over the SSA (raw input used only through strings.TrimSpace; stored text of user-supplied values read only where it is trimmed)",
